@@ -143,7 +143,7 @@ fn slow_families() -> Vec<Family<ClientPlan>> {
                 }
                 1 => {
                     p.cfg.read_card_timeout = 60;
-                    p.pt.pace_ms = 9_500;
+                    p.pt.pace_ms = 7_000;
                 }
                 2 => {
                     p.cfg.read_card_timeout = 5;
@@ -151,7 +151,7 @@ fn slow_families() -> Vec<Family<ClientPlan>> {
                 }
                 _ => {
                     p.cfg.read_card_timeout = 30;
-                    p.pt.pace_ms = 9_000;
+                    p.pt.pace_ms = 6_000;
                 }
             }
             p.label = "via_client/slow".into();
@@ -234,6 +234,37 @@ fn fault_then_fault_in_retry_handshake(kinds: Vec<FaultKind>) -> Family<ClientPl
     })
 }
 
+/// C05 through the client: in a run without any fault (every packet within 10 s, every exchange within
+/// 30 s) each command of a call goes out once - a client that gives a running exchange up on its own
+/// clock and sends the command again has sent it twice.
+fn command_once(plan: &ClientPlan, out: &mut RunOut) {
+    if !plan.faults.is_empty() || !plan.connects.is_empty() || !out.violations.is_empty() {
+        return;
+    }
+    let run = crate::client::run(plan);
+    let pt = run.pt.lock().unwrap();
+    if !pt.fired.is_empty() || !pt.anomalies.is_empty() {
+        return;
+    }
+    for o in run.ops.iter().filter(|o| o.index >= 0) {
+        let reqs: Vec<&crate::pt::ReqLog> = pt.requests.iter().filter(|r| r.op == o.index && !r.handshake).collect();
+        for (i, r1) in reqs.iter().enumerate() {
+            // (the pending query may legitimately be asked again within a clean-up)
+            if r1.frame.len() >= 6 && (r1.frame[0], r1.frame[1]) == (0x06, 0x23) && r1.frame[3..6] == [0x87, 0xff, 0xff] {
+                continue;
+            }
+            if let Some(r2) = reqs.iter().skip(i + 1).find(|r2| r2.frame == r1.frame && r2.conn != r1.conn) {
+                out.fail(
+                    "command_repeated",
+                    format!("via_client/{:02x}{:02x}", r1.frame[0], r1.frame[1]),
+                    format!("{}: no fault anywhere in the run, yet {} went out on connection {} and again on connection {}", o.name, crate::conn::hex(&r1.frame[..r1.frame.len().min(12)]), r1.conn, r2.conn),
+                );
+                return;
+            }
+        }
+    }
+}
+
 pub fn client_families(id: &str, _tier: Tier) -> Vec<Family<ClientPlan>> {
     let mut f = match id {
         // framing: a packet that stops half-way (stall, end of stream) - the rest of it, or the next
@@ -287,7 +318,17 @@ impl<C: Check> Check for ViaClient<C> {
     fn run(&self, plan: &Self::Plan, want_trace: bool) -> RunOut {
         match plan {
             Plan2::Wire(p) => self.inner.run(p, want_trace),
-            Plan2::Client(p) => c09::C09.run(p, want_trace),
+            Plan2::Client(p) => {
+                let mut out = c09::C09.run(p, want_trace);
+                // C09's own clauses - an exchange that completes keeps its connection (R3), the client
+                // recovers after the last fault (R5) - are C09's check's business: a change that breaks only
+                // them leaves the wire properties intact
+                out.violations.retain(|v| !matches!(v.rule.as_str(), "needless_reconnect" | "no_recovery"));
+                if self.inner.id() == "C05" {
+                    command_once(p, &mut out);
+                }
+                out
+            }
             Plan2::Upload(p) => crate::c11::C11.run(p, want_trace),
         }
     }
